@@ -204,7 +204,7 @@ Section Step.
         (apply_effects (after_call w r m') fx, mkObs (res_code r) fx false)
     end.
 
-  Definition run_cc_sync (w : world) (cached : option ccobj) (out : upd_outcome) : world * obs :=
+  Definition run_cc_sync (w : world) (key : str) (cached : option ccobj) (out : upd_outcome) : world * obs :=
     match w_ctl w with
     | None => (w, no_obs)
     | Some m =>
@@ -214,7 +214,7 @@ Section Step.
                                | Some cur => if o_rv cur =? o_rv o then out else UFail
                                | None => UFail end
                    | None => out end in
-        let '(m', r, fx) := sync_cc m cached out in
+        let '(m', r, fx) := sync_cc m key cached out in
         let w1 := after_call w r m' in
         let w2 := match cached with
                   | Some o => if o_deleting o && negb (has_str (o_name o) (w_delseen w1))
@@ -234,7 +234,7 @@ Section Step.
         match w_ctl w1 with
         | None => (w1, no_obs)
         | Some m =>
-            let '(m', r) := release_cidr po lab m n in
+            let '(m', r) := release_cidr m n in
             match r with
             | Panic => (crashed w1, mkObs 3 [] false)
             | _ => let w2 := set_ctl w1 (Some m') in
@@ -346,7 +346,7 @@ Section Step.
         match find (fun x => fst x =? wk) (w_cfetch w) with
         | None => (w, no_obs)
         | Some (_, (key, cached)) =>
-            run_cc_sync (set_fetch w (w_nfetch w) (filter (fun x => negb (fst x =? wk)) (w_cfetch w))) cached out
+            run_cc_sync (set_fetch w (w_nfetch w) (filter (fun x => negb (fst x =? wk)) (w_cfetch w))) key cached out
         end
     | ProcNode outs =>
         match w_ctl w, q_ready (w_nq w) with
@@ -361,7 +361,7 @@ Section Step.
         match w_ctl w, q_ready (w_cq w) with
         | Some _, key :: rest =>
             let w1 := set_queues w (w_nq w) (mkQ rest (q_retry (w_cq w))) in
-            let '(w2, ob) := run_cc_sync w1 (find_cc key (w_ccache w1)) out in
+            let '(w2, ob) := run_cc_sync w1 key (find_cc key (w_ccache w1)) out in
             if ob_res ob =? 2 then (set_queues w2 (w_nq w2) (q_add_retry key (w_cq w2)), mkObs 2 (ob_fx ob) true)
             else (w2, ob)
         | _, _ => (w, no_obs)
